@@ -15,8 +15,8 @@ from gen import c07_meta as M
 from gen import c09_stats as tr_stats
 
 ID = "C07"
-PROPS_FILES = ["Gama/Props/C07.lean"]
-LEAN_TARGETS = ["Gama.Props.C07"]
+PROPS_FILES = ["Gama/Props/C07.lean", "Gama/Props/C07Compose.lean"]
+LEAN_TARGETS = ["Gama.Props.C07", "Gama.Props.C07Compose"]
 DRIVERS = ["drv_input"]
 RULE = ("(a) input stream: PointID pairs from a pool of ASCII / digit / leading-zero / white-space / UTF-8 / long "
         "identifiers and random byte strings (distinct by the pair of byte strings, non-trivial = the two normalised "
@@ -646,6 +646,12 @@ def meta_cases(ctx, n):
                 continue
             algs = ALGS if ctx.thorough else [ALGS[len(out) % 4]]
             out.append((net, spec, algs))
+    # every one of the 8 axes x 2 angle senses at least once as the target of a mirror of a network WITH azimuths
+    # (the north bearing of the x axis only matters for azimuths; random draws reach a given combination rarely)
+    for i, axes in enumerate(M.AXES):
+        for j, ang in enumerate(("left-handed", "right-handed")):
+            net = M.base_network(rng, "2d-ang-azi")
+            out.append((net, {"kind": "mirror", "axes": axes, "angles": ang}, ALGS if ctx.thorough else [ALGS[(2 * i + j) % 4]]))
     return out
 
 
